@@ -150,11 +150,15 @@ def server_shapes() -> dict[str, bool]:
     # _drain_refused_stream_input
     df = _func(tree, "_drain_refused_stream_input")
     body = [s for s in df.body if not (isinstance(s, ast.Expr) and isinstance(s.value, ast.Constant))]
+    # guard first (`return` unless a header-less stream), drain last; in between only plain assignments (e.g. picking the
+    # transport's shm segment so that skipped pointer batches are freed)
     out["refusedDrainGuard"] = (
-        len(body) == 2 and isinstance(body[0], ast.If)
+        len(body) >= 2 and isinstance(body[0], ast.If)
         and ast.unparse(body[0].test) == "info.method_type != MethodType.STREAM or info.header_type is not None"
         and isinstance(body[0].body[0], ast.Return)
-        and isinstance(body[1], ast.With) and "_drain_stream" in _calls(body[1]) and "ipc.open_stream" in _calls(body[1]))
+        and all(isinstance(b, (ast.Assign, ast.AnnAssign)) for b in body[1:-1])
+        and isinstance(body[-1], ast.With) and "_drain_stream" in _calls(body[-1]) and "ipc.open_stream" in _calls(body[-1])
+        and not _has(body[-1], ast.Return) and not _has(body[-1], ast.Raise))
     return out
 
 
